@@ -144,7 +144,7 @@ Clauses == {"Converged", "RerunIsNoop", "FailedRunIsInvisible", "RejectTouchesNo
             "ExecuteOnlyIfSimulatesToTarget", "RecordedAtMostOnce", "RecordedOnlyWithTables",
             "RecordedWithinVersions", "EvolvingAtMostOnce", "EvolvingBeforeAnyChange",
             "ExactlyOneTerminalSignal", "EvolvedIffSaved", "PairedUnlessFailed",
-            "NoTerminalWithoutEvolving"}
+            "EndSignalsTruthful", "NoTerminalWithoutEvolving"}
 
 Holds(c) ==
   CASE c = "Converged" -> Converged
@@ -160,6 +160,7 @@ Holds(c) ==
     [] c = "ExactlyOneTerminalSignal" -> ExactlyOneTerminalSignal
     [] c = "EvolvedIffSaved" -> EvolvedIffSaved
     [] c = "PairedUnlessFailed" -> PairedUnlessFailed
+    [] c = "EndSignalsTruthful" -> EndSignalsTruthful
     [] OTHER -> NoTerminalWithoutEvolving
 
 Report == PrintT(<<"REC", ToJson([tid |-> tid, l |-> l, pc |-> pc,
